@@ -295,6 +295,30 @@ def _positional_params(fn_def: ast.FunctionDef) -> list[str]:
     return [str(arg.arg) for arg in [*args.posonlyargs, *args.args]]
 
 
+def _closure_numbers(fn: Callable) -> dict[str, sympy.Expr]:
+    """Names a function closes over, bound to the numbers in their cells.
+
+    A free variable of a nested function is looked up in the enclosing scope,
+    never among the constants of the module, whatever the module calls that way.
+    """
+    code = getattr(fn, "__code__", None)
+    cells = getattr(fn, "__closure__", None)
+    if code is None or not cells:
+        return {}
+    numbers: dict[str, sympy.Expr] = {}
+    for name, cell in zip(code.co_freevars, cells, strict=True):
+        try:
+            value = cell.cell_contents
+        except ValueError as e:
+            msg = f"Free variable {name!r} is not bound yet"
+            raise NotImplementedError(msg) from e
+        if isinstance(value, bool) or not isinstance(value, int | float):
+            msg = f"Only numbers can be closed over, {name!r} is a {type(value).__name__}"
+            raise NotImplementedError(msg)
+        numbers[name] = sympy.Float(value)
+    return numbers
+
+
 def fn_to_sympy(
     fn: Callable,
     origin: str,
@@ -334,7 +358,8 @@ def fn_to_sympy(
         sympy_expr = _handle_fn_body(
             fn_def.body,
             ctx=Context(
-                symbols={name: sympy.Symbol(name) for name in fn_args},
+                symbols=_closure_numbers(fn)
+                | {name: sympy.Symbol(name) for name in fn_args},
                 caller=fn,
                 parent_module=inspect.getmodule(fn),
                 origin=origin,
